@@ -108,6 +108,7 @@ def execItems (path : String) (index : Nat) : Items → M RItems
   | .nil => M.pure .nil
   | .cons delay p tl =>
     M.bind (M.wait delay) fun _ =>
+    M.bind (M.call (path ++ "/" ++ seg index ++ "#")) fun _ =>    -- the stream's own code produces the item
     M.bind (complete (path ++ "/" ++ seg index) p) fun v =>
     M.bind (execItems path (index + 1) tl) fun rest =>
     M.pure (.cons v rest)
@@ -155,7 +156,8 @@ def Fields.calls (path : String) : Fields → List String
   | .cons key _ p tl => (path ++ "/" ++ key) :: p.calls (path ++ "/" ++ key) ++ tl.calls path
 def Items.calls (path : String) (index : Nat) : Items → List String
   | .nil => []
-  | .cons _ p tl => p.calls (path ++ "/" ++ seg index) ++ tl.calls path (index + 1)
+  | .cons _ p tl =>
+    (path ++ "/" ++ seg index ++ "#") :: p.calls (path ++ "/" ++ seg index) ++ tl.calls path (index + 1)
 end
 
 mutual
